@@ -861,6 +861,13 @@ impl Session {
     ensures
         r is Ok,                                                                                     // [C15.disposition.total] any disposition (unknown ids, huge ranges, last < first) is handled without error or panic
         final(self).same_outside_disp(old(self)),                                                    // [C02.disposition.frame]
+        !disposition.settled ==> ({
+            let last = if disposition.last is Some { disposition.last->Some_0 } else { disposition.first };
+            let run = disp_run(old(self).ds(), disposition.role, disposition.settled, disposition.state, disposition.first, range_count(disposition.first, last));
+            forall|i: int| 0 <= i < run.echo_ids.len() ==> !final(self).delivery_tag_by_id@.contains_key((disposition.role, #[trigger] run.echo_ids[i]))   // [C02.disposition.echoed-delivery-forgotten] a delivery the session settles itself with its settling echo (peer settles second) is forgotten like one the peer settled: a stale entry keeps routing later dispositions by (handle, tag), both of which are re-used -- a repeated disposition for the old delivery then resolves a NEW delivery's send with the old outcome
+        }),
+        disposition.settled && disposition.last is Some && disposition.last->Some_0 < disposition.first && old(self).delivery_tag_by_id@.contains_key((disposition.role, disposition.first))
+            ==> !final(self).delivery_tag_by_id@.contains_key((disposition.role, disposition.first)),     // [C02.disposition.range-is-serial] first..last is a range of SERIAL numbers: a disposition {first = 0xFFFF_FFFF, last = 0} covers the two deliveries across the 2^32 wrap of the delivery-id (next-outgoing-id starts near the wrap); read as plain integers the range is empty and nothing is settled
         ({
             let last = if disposition.last is Some { disposition.last->Some_0 } else { disposition.first };
             let run = disp_run(old(self).ds(), disposition.role, disposition.settled, disposition.state, disposition.first, range_count(disposition.first, last));
